@@ -217,6 +217,39 @@ pub fn run_c16(a: &Args) {
             ctx::nontrivial(mix(this, 0x9a17));
         }
     }
+    // ---- the unseeded generator (seed = None) must still draw fresh G(n,p) samples
+    for directed in [false, true] {
+        let this = 25_000 + directed as u64;
+        if !ctx::mine(this) {
+            continue;
+        }
+        let kind = if directed { "directed" } else { "undirected" };
+        let n = 5;
+        let mut seen: BTreeSet<(i32, i32)> = BTreeSet::new();
+        let mut distinct: BTreeSet<Vec<(i32, i32)>> = BTreeSet::new();
+        for _ in 0..400 {
+            ctx::eval(1);
+            match guard("fast_gnp_random_graph", || random::fast_gnp_random_graph(n, 0.5, directed, None)) {
+                Ok(Ok(g)) => match structure(&g, n, directed) {
+                    Ok(set) => {
+                        distinct.insert(set.iter().copied().collect());
+                        seen.extend(set);
+                    }
+                    Err((class, det)) => ctx::violation(&format!("C16|fast_gnp_random_graph|{}|{}", class, kind), "unseeded G(n,p) structure", det),
+                },
+                Ok(Err(e)) => ctx::violation(&format!("C16|fast_gnp_random_graph|error:{}|{}", err_name(&e.kind), kind), "unseeded fast_gnp_random_graph failed", json!(e.message)),
+                Err(c) => ctx::violation(&format!("C16|fast_gnp_random_graph|{}|{}", c.class(), kind), "unseeded fast_gnp_random_graph panicked", c.json()),
+            }
+        }
+        let possible = if directed { 20 } else { 10 };
+        if seen.len() != possible || distinct.len() < 20 {
+            // 400 independent draws at p = 0.5 miss a pair with probability 2^-400 and repeat
+            // 380 times among 2^10 / 2^20 graphs with probability far below 1e-100
+            ctx::violation(&format!("C16|fast_gnp_random_graph|unseeded-draws-not-independent|{}", kind), "400 unseeded draws did not behave like independent G(n,p) samples", json!({"pairs_seen": seen.len(), "possible_pairs": possible, "distinct_graphs": distinct.len()}));
+        }
+        ctx::count("gnp:unseeded-draws-checked");
+        ctx::nontrivial(mix(this, 0x4e0));
+    }
     // ---- tiny probabilities over many seeds (arithmetic on huge skips)
     let base3 = 30_000;
     let tiny_seeds: u64 = if a.thorough { 40_000 } else { 3_000 };
@@ -309,8 +342,20 @@ fn c17_results(case_kind: u64, rng: &mut Rng, idx: u64) -> Vec<(&'static str, St
             }
             let weighted = case.wclass.weighted() && rng.coin();
             let gamma = *rng.pick(&[0.5, 1.0, 1.0, 1.5]);
-            let seed = rng.next_u64() % 21;
-            let desc = json!({"graph": case.json(), "weighted": weighted, "resolution": gamma, "seed": seed});
+            let seed = match rng.below(8) {
+                0 => u64::MAX - rng.below(3) as u64,
+                1 => 1u64 << 63,
+                _ => rng.next_u64() % 21,
+            };
+            let mut case = case;
+            if weighted && rng.chance(1, 8) {
+                // exact (power-of-two scaled) weights whose squares overflow f64
+                for e in case.edges.iter_mut() {
+                    e.2 *= 2f64.powi(520);
+                }
+                ctx::count("reach:louvain-with-huge-dyadic-weights");
+            }
+            let desc = json!({"graph": case.json(), "weighted": weighted, "resolution": gamma, "seed": seed.to_string()});
             let g = case.build();
             graphrs::verif_hooks::set_budget("louvain_sweep", Some(200 + 20 * case.n() as u64));
             graphrs::verif_hooks::take_ticks("louvain_sweep");
